@@ -11,6 +11,7 @@ import (
 	"go/token"
 	"go/types"
 	"path/filepath"
+	"regexp"
 	"sort"
 	"strconv"
 	"strings"
@@ -599,10 +600,20 @@ func init() {
 				var b bytes.Buffer
 				printer.Fprint(&b, x.Fset, nf.Body)
 				body := strings.Join(strings.Fields(b.String()), " ")
+				// the similarity floor is a value (regenerated, so that re-tuning it is followed by the model); the rest is shape
+				floor := ""
+				if m := regexp.MustCompile(`if similarity > ([0-9]+(?:\.[0-9]+)?) \{`).FindStringSubmatch(body); m != nil {
+					if q, qok := leanQ(constant.MakeFromLiteral(m[1], map[bool]token.Token{true: token.FLOAT, false: token.INT}[strings.Contains(m[1], ".")], 0)); qok {
+						floor = q
+					}
+				}
 				ok = strings.HasSuffix(body, legacyscoreShapes["nlp.TFIDFSearcher.Search#tail"]+" }") &&
-					strings.Contains(body, "Score: similarity * 100,") && strings.Contains(body, "if similarity > 0.01 {")
+					strings.Contains(body, "Score: similarity * 100,") && floor != ""
+				if ok {
+					fmt.Fprintf(&sb, "/-- TFIDFSearcher.Search: `if similarity > <floor>` -/\ndef tfidfMinSim : Wtf.Q := %s\n\n", floor)
+				}
 			}
-			x.Assert("legacyscore:tfidf-search-tail", ok, "expected TFIDFSearcher.Search to keep similarities > 0.01 with Score = similarity*100, sort.SliceStable by Similarity descending and cut to the limit")
+			x.Assert("legacyscore:tfidf-search-tail", ok, "expected TFIDFSearcher.Search to keep similarities > <a literal floor> with Score = similarity*100, sort.SliceStable by Similarity descending and cut to the limit")
 		}
 
 		// ---- tables ----
